@@ -715,3 +715,32 @@ def r08_14_verdict_is_a_set(ctx, rid='R08.14'):
     if n == 0:
         raise AnalysisError('anchor missing: no (verdict, error) return in the recogniser')
     r.done()
+
+
+def r07_5_quoted_scalars_read_back(ctx, rid='R07.5'):
+    """The load-back clause of C07, for the scalar kinds JSON has no literal for: what the emitter writes as a JSON *string* is read
+    back as a str-tagged scalar, so it only loads where the declared type accepts a string."""
+    P = ctx.P
+    r = ctx.rule(rid, 'every scalar kind that emit_json writes as a JSON string is accepted back as that kind from a string: only '
+                      'str-tagged scalars are quoted, or the recogniser of the quoted kind accepts the str tag', floor=1)
+    f = fn(P, 'yatiml.dumper:Dumper.emit_json')
+    quoted: Set[str] = set()
+    sites = [c for c in f.walk() if isinstance(c, ast.Call) and norm(c.func) == 'json.dumps' and f.live(c)]
+    for c in sites:
+        for g, pol in f.guards(c):
+            if not pol:
+                continue
+            for x in ast.walk(g):
+                if isinstance(x, ast.Constant) and isinstance(x.value, str) and x.value.startswith('tag:yaml.org,2002:'):
+                    quoted.add(x.value[len('tag:yaml.org,2002:'):])
+    if not sites or 'str' not in quoted:
+        raise AnalysisError('anchor missing: the json.dumps(..) write for str-tagged scalars in Dumper.emit_json')
+    # which tags the scalar recogniser accepts for a type: exactly scalar_type_to_tag[type] (R01.5) - so a kind other than str that
+    # is written as a string does not come back
+    for kind in sorted(quoted - {'str'}):
+        r.fail('yatiml.dumper:Dumper.emit_json:quoted-kind:%s' % kind, f.loc(sites[0]),
+               'scalars tagged %s are written to JSON as strings (there is no other way), and a JSON string is read back as a str-tagged '
+               'scalar, which the recogniser accepts only where str is declared: a value containing a %s does not survive '
+               'dumps_json + load' % (kind, {'timestamp': 'date'}.get(kind, kind)))
+    r.ok('kinds written as JSON strings: %s' % sorted(quoted))
+    r.done()
